@@ -96,11 +96,21 @@ Definition shift_real (p : ptab) (known_hr : Q) : ptab :=
 
 (* ---------- judges ---------- *)
 Definition close_col (eps : Q) (a b : list Q) : bool := close_list eps a b.
+(* enthalpy cells: the implementation's grid temperatures are the doubles nearest to the 6-decimal values, i.e. displaced by up
+   to ~3e-14 K from the model's exact decimals; a cell may therefore differ by that displacement times the total CP *)
+Fixpoint close_h (eps extra : Q) (l1 l2 : list Q) : bool :=
+  match l1, l2 with
+  | [], [] => true
+  | a :: r1, b :: r2 => qleb (Qabs (a - b)) (eps * qscale a b + extra) && close_h eps extra r1 r2
+  | _, _ => false
+  end.
+Definition cp_total (m : list Q) (n : list Q) : Q := fold_right (fun x a => Qabs x + a) 0 (m ++ n).
 Definition agree_ptab (eps : Q) (m i : ptab) : bool :=
+  let extra := Qred ((1 # 10000000000000) * (1 + cp_total (pCPh m) (pCPc m))) in
   close_col eps (pT m) (pT i) && close_col eps (pdT m) (pdT i) && close_col eps (pCPh m) (pCPh i)
-  && close_col eps (pdHh m) (pdHh i) && close_col eps (pHh m) (pHh i) && close_col eps (pCPc m) (pCPc i)
-  && close_col eps (pdHc m) (pdHc i) && close_col eps (pHc m) (pHc i) && close_col eps (pCPn m) (pCPn i)
-  && close_col eps (pdHn m) (pdHn i) && close_col eps (pHn m) (pHn i).
+  && close_h eps extra (pdHh m) (pdHh i) && close_h eps extra (pHh m) (pHh i) && close_col eps (pCPc m) (pCPc i)
+  && close_h eps extra (pdHc m) (pdHc i) && close_h eps extra (pHc m) (pHc i) && close_col eps (pCPn m) (pCPn i)
+  && close_h eps extra (pdHn m) (pdHn i) && close_h eps extra (pHn m) (pHn i).
 
 (* absolute closeness scaled by the total duty of the problem *)
 Definition dscale (hot cold : list view) : Q := Qmax 1 (duty hot + duty cold).
